@@ -76,6 +76,7 @@ class SrcInfo:
         self.enums = {}     # name -> [(variant name, [field names] or None)]
         self.struct_kind = {}
         self.enum_defs = {}
+        self.struct_types = {}
         self.impl_cache = {}
         for dp, dn, fn in os.walk(os.path.join(root, 'src')):
             for f in fn:
@@ -133,6 +134,7 @@ class SrcInfo:
                     self.structs.setdefault(name, [str(i) for i in range(k)])
                 else:
                     self.structs.setdefault(name, self._field_names(body))
+                    self.struct_types.setdefault(name, self._field_types(body))
             else:
                 variants = []
                 for part in split_top(body):
@@ -152,6 +154,18 @@ class SrcInfo:
                 stem = os.path.splitext(os.path.basename(path))[0]
                 self.enums.setdefault('%s::%s' % (stem, name), variants)
                 self.enum_defs.setdefault(name, []).append('%s::%s' % (stem, name))
+
+    @staticmethod
+    def _field_types(body):
+        types = []
+        for part in split_top(body):
+            part = part.strip()
+            if not part:
+                continue
+            fm = re.match(r'^(?:pub(?:\([^)]*\))?\s+)?([A-Za-z_]\w*)\s*:\s*(.*)$', part, re.S)
+            if fm:
+                types.append(re.sub(r'\s+', ' ', fm.group(2).strip()))
+        return types
 
     @staticmethod
     def _field_names(body):
